@@ -361,12 +361,14 @@ class DecodeMonitor(Monitor):
             except rc.Malformed as e:
                 rec["malformed"] = e.klass
         if rec.get("malformed") == "rhl>mhl":
-            from flexstack.geonet.gn_address import GNAddress, MID
+            from flexstack.geonet.gn_address import GNAddress, MID, M, ST
             try:
                 inner = rc.parse_common_on(frame[4:])
-                mid = inner["so"]["addr"]["mid"]
-                rec["rhl_gt_mhl_known_before"] = st.gn.location_table.get_entry(GNAddress(mid=MID(mid))) is not None
-                rec["rhl_gt_mhl_mid"] = mid
+                a = inner["so"]["addr"]
+                if a["st"] <= 12:
+                    ga = GNAddress(m=M(a["m"]), st=ST(a["st"]), mid=MID(a["mid"]))
+                    rec["rhl_gt_mhl_known_before"] = st.gn.location_table.get_entry(ga) is not None
+                    rec["rhl_gt_mhl_mid"] = ga
             except rc.Malformed:
                 pass
         if p is None or "secured" in p:
@@ -486,8 +488,7 @@ class DecodeMonitor(Monitor):
             if new_tx:
                 bad.append("forward")
             if rec.get("rhl_gt_mhl_mid") is not None and not rec.get("rhl_gt_mhl_known_before"):
-                from flexstack.geonet.gn_address import GNAddress, MID
-                if st.gn.location_table.get_entry(GNAddress(mid=MID(rec["rhl_gt_mhl_mid"]))) is not None:
+                if st.gn.location_table.get_entry(rec["rhl_gt_mhl_mid"]) is not None:
                     bad.append("table-update")
             if bad:
                 self.v(sim, "C20", "rhl-gt-mhl-accepted", "+".join(bad), f"station {st.idx}: packet with RHL > MHL caused {bad}")
